@@ -478,6 +478,7 @@ type c20CryptoSpace struct {
 	name   string
 	kinds  []abe.LeafKind
 	labels []string
+	values []string
 	leaves []int
 	maxNot int
 	legacy func(gi int, g *c20Group) bool
@@ -488,8 +489,9 @@ type c20CryptoSpace struct {
 func TestVerifC20_crypto(t *testing.T) {
 	r := verifmc.Start(t, "C20", "crypto")
 	defer r.Finish()
+	c20SelfCheck(t)
 	r.Rule("one Setup; every formula of the space is parsed and formulas are grouped by parsed policy structure; per group one ciphertext (messages of 0/1/1000 bytes in rotation) " +
-		"is decrypted with one key per assignment labels -> {absent,1,2,3}; every member formula is judged against its own reference verdict; " +
+		"is decrypted with one key per assignment labels -> {absent} U values; every member formula is judged against its own reference verdict; " +
 		"non-trivial = distinct parsed policy structure; (formula, assignment) pairs are counted exactly")
 	sys := c20System(t)
 	// public / secret key round trips and determinism of the operations used below
@@ -499,20 +501,24 @@ func TestVerifC20_crypto(t *testing.T) {
 	ab, abc := []string{"a", "b"}, []string{"a", "b", "c"}
 	var spaces []c20CryptoSpace
 	if r.Thorough() {
+		half := func(gi int, g *c20Group) bool { return g.nLeaves < 3 || gi%2 == 0 }
+		quarter := func(gi int, g *c20Group) bool { return g.nLeaves < 3 || gi%4 == 1 }
 		spaces = []c20CryptoSpace{
-			{"ab", c20Kinds3, ab, []int{1, 2, 3}, 1, all, all},
-			{"abc", c20Kinds4, abc, []int{1, 2}, 2, all, all},
+			{"ab", c20Kinds3, ab, c20Values, []int{1, 2, 3}, 1, half, quarter},
+			{"abc", c20Kinds4, abc, c20Values, []int{1, 2}, 2, all, all},
 		}
-		r.Set("space", "ab: leaves<=3 over {a:1,a:2,b:1}, <=1 negation per node, 16 assignments; abc: leaves<=2 over {a:1,a:2,b:1,c:1}, <=2 stacked negations per node, 64 assignments; both formats and round-tripped keys everywhere")
+		r.Set("space", "ab: leaves<=3 over {a:1,a:2,b:1}, <=1 negation per node, 16 assignments {a,b}->{absent,1,2,3}; abc: leaves<=2 over {a:1,a:2,b:1,c:1}, <=2 stacked negations per node, 64 assignments; "+
+			"legacy format on every structure of <=2 leaves and every 2nd of 3 leaves, round-tripped keys on every structure of <=2 leaves and every 4th of 3 leaves")
+		r.NotExhaustive("legacy format / round-tripped keys on a declared half / quarter of the 3-leaf structures")
 	} else {
-		some := func(gi int, g *c20Group) bool { return g.nLeaves == 1 || gi%4 == 0 }
-		some2 := func(gi int, g *c20Group) bool { return g.nLeaves == 1 || gi%4 == 1 }
-		spaces = []c20CryptoSpace{{"ab", c20Kinds3, ab, []int{1, 2}, 2, some, some2}}
-		r.Set("space", "ab: leaves<=2 over {a:1,a:2,b:1}, <=2 stacked negations per node, 16 assignments; legacy format and round-tripped keys on all 1-leaf and every 4th 2-leaf structure")
-		r.NotExhaustive("quick tier: formulas of <= 2 leaves over 3 leaf kinds only; legacy format on a declared quarter of the 2-leaf structures")
+		some := func(gi int, g *c20Group) bool { return g.nLeaves == 1 || gi%6 == 0 }
+		some2 := func(gi int, g *c20Group) bool { return g.nLeaves == 1 || gi%6 == 1 }
+		spaces = []c20CryptoSpace{{"ab", c20Kinds3, ab, []string{"1", "2"}, []int{1, 2}, 2, some, some2}}
+		r.Set("space", "ab: leaves<=2 over {a:1,a:2,b:1}, <=2 stacked negations per node, 9 assignments {a,b}->{absent,1,2}; legacy format and round-tripped keys on all 1-leaf and every 6th 2-leaf structure")
+		r.NotExhaustive("quick tier: formulas of <= 2 leaves over 3 leaf kinds only; legacy format on a declared sixth of the 2-leaf structures")
 	}
 	for _, sp := range spaces {
-		asgs := c20Assignments(sp.labels, c20Values)
+		asgs := c20Assignments(sp.labels, sp.values)
 		keys := c20Keys(r, sys, sp.name, asgs)
 		var forms []*abe.Node
 		for _, n := range sp.leaves {
@@ -605,17 +611,20 @@ func c20KeyRoundTrips(r *verifmc.Run, sys *c20Sys) {
 func TestVerifC20_messages(t *testing.T) {
 	r := verifmc.Start(t, "C20", "messages")
 	defer r.Finish()
+	c20SelfCheck(t)
 	r.Rule("policy (a:1 and not b:1); one satisfying key {a=1,b=2} and one non-satisfying key {a=1,b=1}; every message length of the list; " +
 		"the satisfying key must return exactly the message, the other must fail; legacy framing too when it fits 16-bit lengths; non-trivial = distinct (length, format)")
 	sys := c20System(t)
 	var lens []int
-	top := r.Pick(66, 300)
+	top := r.Pick(8, 300)
 	for n := 0; n <= top; n++ {
 		lens = append(lens, n)
 	}
-	lens = append(lens, 127, 128, 129, 255, 256, 257, 1000, 4096, 60000, 65463, 65464, 65465, 65535, 65536, 70000, 1<<17+3)
-	if !r.Thorough() {
-		lens = append(lens[:top+1], 127, 128, 129, 1000, 60000, 65463, 65464, 65536, 70000)
+	if r.Thorough() {
+		lens = append(lens, 1000, 4096, 60000, 65463, 65464, 65465, 65535, 65536, 70000, 1<<17+3)
+	} else {
+		// envelope = 72-byte seed + message: lengths around the 128/192/256-byte marks of the envelope and of the message, and around 2^16
+		lens = append(lens, 55, 56, 57, 63, 64, 65, 119, 120, 121, 127, 128, 129, 183, 184, 185, 1000, 60000, 65463, 65464, 65536, 70000)
 	}
 	sort.Ints(lens)
 	uniq := lens[:0]
@@ -689,36 +698,45 @@ func TestVerifC20_messages(t *testing.T) {
 				r.Count("refused_for_unsatisfying_key", 1)
 			}
 		}
-		if li == 5 || n == 70000 {
+		if n == 5 || n == 70000 {
 			r.Sample(map[string]interface{}{"message_len": n, "ciphertext_len": len(ct), "formats": len(forms)})
 		}
 	})
 	r.RequireCounter("messages_returned_exactly", int64(len(lens)))
 	r.RequireCounter("legacy_ciphertexts", int64(top))
+	if !r.Thorough() {
+		r.NotExhaustive("quick tier: message lengths 0..8 and 21 boundary lengths; thorough: every length 0..300 and 10 long ones")
+	}
 }
 
 // ---- alteration ---------------------------------------------------------------------------------
 
-// c20AlterBits: all bits (thorough / small), or the declared sub-alphabet: every bit of the first `head` and last `tail`
-// bytes and one bit (index byte%8) of every stride-th byte in between.
-func c20AlterBits(n int, all bool, head, tail, stride int) (bits []int, full bool) {
-	if all {
-		for i := 0; i < 8*n; i++ {
+// c20AlterBits selects the bit positions of one subject. mode "all": every bit of [lo,hi). mode "regions" (declared
+// sub-alphabet of the quick tier): with off = start of the id length field (6 in v1.3.8, 0 in the legacy format),
+// every bit of the framing and policy bytes [0,off+2) U [off+34,off+34+88), of the last 8 bytes of the envelope (end of the
+// message) and of the tag length field, one bit of every
+// byte of the id and of the tag, and one bit of every stride-th byte elsewhere.
+func c20AlterBits(n int, mode string, off, lo, hi, stride int) (bits []int, desc string) {
+	if mode == "all" {
+		for i := 8 * lo; i < 8*hi; i++ {
 			bits = append(bits, i)
 		}
-		return bits, true
+		return bits, fmt.Sprintf("every bit of bytes [%d,%d)", lo, hi)
 	}
 	for by := 0; by < n; by++ {
 		switch {
-		case by < head || by >= n-tail:
+		case by < off+2 || (by >= off+34 && by < off+34+88) || (by >= n-34-8 && by < n-32):
 			for k := 0; k < 8; k++ {
 				bits = append(bits, 8*by+k)
 			}
+		case by < off+34 || by >= n-32:
+			bits = append(bits, 8*by+by%8)
 		case by%stride == 0:
 			bits = append(bits, 8*by+(by/stride)%8)
 		}
 	}
-	return bits, false
+	return bits, fmt.Sprintf("every bit of bytes [0,%d), [%d,%d), of the last 8 envelope bytes and of the tag length field; one bit of every byte of the id and of the tag; one bit of every %dth byte elsewhere",
+		off+2, off+34, off+34+88, stride)
 }
 
 type c20AlterSubject struct {
@@ -728,17 +746,17 @@ type c20AlterSubject struct {
 	msg    []byte
 	key    *AttributeKey
 	sat    bool // the key decrypts the unaltered ciphertext
-	all    bool
-	head   int
-	tail   int
+	mode   string
+	off    int
+	lo, hi int
 	stride int
-	first  int // restrict to the first `first` bytes (0 = whole ciphertext)
 }
 
 // TestVerifC20_alter: every single-bit alteration of a ciphertext fails or returns the original message.
 func TestVerifC20_alter(t *testing.T) {
 	r := verifmc.Start(t, "C20", "alter")
 	defer r.Finish()
+	c20SelfCheck(t)
 	r.Rule("per subject ciphertext (v1.3.8 generated, legacy = committed fixture ciphertext_v137 with its fixture key): flip one bit, Decrypt; allowed outcomes: error, or exactly the " +
 		"original message; a different message is a violation (a panic is recorded as an outcome and left to C10); non-trivial = distinct (subject, bit)")
 	sys := c20System(t)
@@ -769,16 +787,19 @@ func TestVerifC20_alter(t *testing.T) {
 		t.Fatalf("fixture attributeKey: %v", err)
 	}
 	fix137 := c20ReadFixture(t, "ciphertext_v137")
-	th := r.Thorough()
+	mode := "regions"
+	if r.Thorough() {
+		mode = "all"
+	}
 	subjects := []c20AlterSubject{
-		{name: "new/a:1", format: "v1.3.8", ct: ct1, msg: msg1, key: k1, sat: true, all: th, head: 48, tail: 40, stride: 16},
-		{name: "legacy/fixture_v137", format: "legacy", ct: fix137, msg: []byte(c20FixtureMsg), key: fixKey, sat: true, all: th, head: 48, tail: 40, stride: 16},
-		{name: "new/a:1/unsatisfying-key/first-200-bytes", format: "v1.3.8", ct: ct1, msg: msg1, key: k1bad, sat: false, all: true, first: 200},
+		{name: "new/a:1", format: "v1.3.8", ct: ct1, msg: msg1, key: k1, sat: true, mode: mode, off: 6, lo: 0, hi: len(ct1), stride: 32},
+		{name: "legacy/fixture_v137", format: "legacy", ct: fix137, msg: []byte(c20FixtureMsg), key: fixKey, sat: true, mode: mode, off: 0, lo: 0, hi: len(fix137), stride: 32},
+		// a key that does NOT satisfy the policy, on the bytes that hold the policy (a flip there may turn the policy into one the key satisfies)
+		{name: "new/a:1/unsatisfying-key/policy-bytes", format: "v1.3.8", ct: ct1, msg: msg1, key: k1bad, sat: false, mode: "all", lo: 6 + 34 + 8, hi: 6 + 34 + 8 + r.Pick(72, 400)},
 	}
-	if th {
-		subjects = append(subjects, c20AlterSubject{name: "new/(a:1 and not b:1)", format: "v1.3.8", ct: ct2, msg: msg2, key: k2, sat: true, head: 64, tail: 64, stride: 8})
+	if r.Thorough() {
+		subjects = append(subjects, c20AlterSubject{name: "new/(a:1 and not b:1)", format: "v1.3.8", ct: ct2, msg: msg2, key: k2, sat: true, mode: "regions", off: 6, stride: 8})
 	}
-	_ = ct2
 	var info []string
 	for _, s := range subjects {
 		s := s
@@ -791,14 +812,11 @@ func TestVerifC20_alter(t *testing.T) {
 			r.Violation("C20|AttributeKey.Decrypt|succeeds-on-unsatisfied/"+s.format+"|"+s.name, "alter|"+s.name+"|base", fmt.Sprintf("%s: non-satisfying key: outcome %d %s", s.name, st, detail), nil)
 			continue
 		}
-		n := len(s.ct)
-		if s.first > 0 && s.first < n {
-			n = s.first
+		bits, desc := c20AlterBits(len(s.ct), s.mode, s.off, s.lo, s.hi, s.stride)
+		if s.mode != "all" || s.lo != 0 || s.hi != len(s.ct) {
+			r.NotExhaustive(fmt.Sprintf("%s: %d of %d bit positions (%s)", s.name, len(bits), 8*len(s.ct), desc))
 		}
-		bits, full := c20AlterBits(n, s.all, s.head, s.tail, s.stride)
-		if !full {
-			r.NotExhaustive(fmt.Sprintf("%s: %d of %d bit positions (every bit of the first %d and last %d bytes, one bit of every %dth byte between)", s.name, len(bits), 8*n, s.head, s.tail, s.stride))
-		}
+		full := s.mode == "all"
 		info = append(info, fmt.Sprintf("%s: %d bytes, %d bit positions, all=%v", s.name, len(s.ct), len(bits), full))
 		verifmc.ParallelFor(len(bits), func(bi int) {
 			bit := bits[bi]
